@@ -719,6 +719,11 @@ private:
     bool                m_orig_is_thread_registered{};
 };
 
+#if ONETBB_VERIF
+// verification hook: tells the harness that task_arena::execute found no free slot and hands its functor over as an enqueued task
+extern "C" void (*onetbb_verif_execute_delegated_hook)(const void* arena);
+#endif
+
 class delegated_task : public d1::task {
     d1::delegate_base&  m_delegate;
     concurrent_monitor& m_monitor;
@@ -781,6 +786,9 @@ void task_arena_impl::execute(d1::task_arena_base& ta, d1::delegate_base& d) {
             task_group_context_impl::copy_fp_settings(exec_context, *a->my_default_ctx);
 
             delegated_task dt(d, a->my_exit_monitors, wo);
+#if ONETBB_VERIF
+            if (onetbb_verif_execute_delegated_hook) onetbb_verif_execute_delegated_hook(a);
+#endif
             a->enqueue_task( dt, exec_context, *td);
             size_t index2 = arena::out_of_arena;
             do {
